@@ -216,6 +216,14 @@ def binop(I, op, a, b):
             return VStr(z3.Concat(a.t, b.t))
         if isinstance(a, VBytes) and isinstance(b, VBytes):
             return VBytes(z3.Concat(a.t, b.t))
+        if isinstance(a, VStr) and isinstance(b, VAny) and I.spec_mode == 0:
+            # str + <dynamically typed value>: concatenation for a str, TypeError otherwise
+            # (str subclasses / __radd__ are outside the model: Val.is_str covers exact and sub-typed str)
+            used('str.__add__(dynamic)')
+            if I.decide(Val.is_str(b.t), 'add-str'):
+                return VStr(z3.Concat(a.t, Val.s(b.t)))
+            from .interp import Raised
+            raise Raised(VExc(TypeError, []))
         if isinstance(a, (VList, VTuple)) and type(a) is type(b):
             return type(a)(a.items + b.items)
         if isinstance(a, VSeq) and isinstance(b, (VSeq, VList, VTuple)):
@@ -1710,6 +1718,15 @@ def str_method(I, s, name, args, kwargs):
                 key = 'c' + '_'.join('%x' % ord(c) for c in cs)
         return VStr(strip_model(I, s, cre, name, key))
     if name in ('split', 'rsplit'):
+        c = z3.simplify(s)
+        if z3.is_string_value(c) and not kwargs and all(
+                isinstance(a, VStr) and z3.is_string_value(z3.simplify(a.t)) for a in args[:1]) and \
+                all(isinstance(a, VInt) and z3.is_int_value(z3.simplify(a.t)) for a in args[1:2]):
+            # constant receiver and arguments: the real method (a list of constants)
+            cargs = [z3.simplify(a.t).as_string() for a in args[:1]] + \
+                    [z3.simplify(a.t).as_long() for a in args[1:2]]
+            used('str.split(constant)')
+            return VList([VStr(x) for x in getattr(c.as_string(), name)(*cargs)])
         return split_model(I, s, name, args, kwargs)
     if name == 'replace':
         return VStr(replace_model(I, s, strterm(args[0]), strterm(args[1]),
